@@ -36,16 +36,20 @@ def gen_case(rng, tier):
     nkeys = rng.choice([1, 2, 3])
     progs = []
     pool = rng.random() < 0.5          # values repeat (A writes v, B writes w, A writes v again)
+    vals = ['v0', 'v1', 'v2'] if rng.random() < 0.6 else rng.sample(list(FALSY), 2) + ['v2']
+
+    def pv():
+        return vals[rng.randrange(3)]
     for p in range(nproc):
         ops = []
         for i in range(rng.randrange(3, 13 if nproc <= 4 else 7)):
             r = rng.random()
             k = rng.randrange(nkeys)
             if r < 0.3:
-                ops.append(['set', k, f'v{rng.randrange(3)}' if pool else f'p{p}v{i}'])
+                ops.append(['set', k, pv() if pool else f'p{p}v{i}'])
             elif r < 0.45:
                 ks = rng.sample(range(nkeys), rng.randrange(1, nkeys + 1))
-                ops.append(['bulk', [[kk, f'v{rng.randrange(3)}' if pool else f'p{p}b{i}k{kk}']
+                ops.append(['bulk', [[kk, pv() if pool else f'p{p}b{i}k{kk}']
                                      for kk in ks]])
             elif r < 0.85:
                 ops.append(['get', k])
@@ -93,6 +97,21 @@ COLLIDING = ['k1', 'k1.dat', 'k1.dir']
 # of their prefixes): still one file set per key
 _P = 'k' * 240
 LONGKEYS = [_P + 'a' * 10, _P + 'b' * 10, _P, _P[:200]]
+
+
+# value tokens 'z:...' stand for FALSY Python values (the register must hold them like any other)
+FALSY = {'z:0': 0, 'z:e': '', 'z:f': False, 'z:l': []}
+
+
+def real(tok):
+    return FALSY.get(tok, tok)
+
+
+def token(val):
+    for t, v in FALSY.items():
+        if type(val) is type(v) and val == v:
+            return t
+    return val
 
 
 def kname(k, names=None):
@@ -190,11 +209,11 @@ def child(p, ops, gpath, logf, seed, inject=0.0, wait_for=None, ctx=0.0, head=Fa
         try:
             def do(c):
                 if op[0] == 'set':
-                    return c.set(kname(op[1], names), op[2])
+                    return c.set(kname(op[1], names), real(op[2]))
                 if op[0] == 'bulk':
-                    return c.bulk_set({kname(k, names): v for k, v in op[1]})
+                    return c.bulk_set({kname(k, names): real(v) for k, v in op[1]})
                 if op[0] == 'get':
-                    return c.get(kname(op[1], names))
+                    return token(c.get(kname(op[1], names)))
                 return c.unset(kname(op[1], names))
             if ctx and rng.random() < ctx:
                 # the documented context-manager form: a cache object per operation
